@@ -413,8 +413,13 @@ var (
 	varNames = []string{"id", "name", "x", "y", "z", "all", "any", "num", "k1", "k2"}
 )
 
+var litLong = rapid.StringMatching(`[a-c]{60,140}`)
+
 func genLit(t *rapid.T, cfg GenCfg) string {
 	if cfg.RichLits && rapid.IntRange(0, 2).Draw(t, "richLit") == 0 {
+		if rapid.IntRange(0, 11).Draw(t, "longLit") == 0 {
+			return litLong.Draw(t, "lit") // long paths: method+path beyond any small fixed-size buffer
+		}
 		return litRich.Draw(t, "lit")
 	}
 	return litPlain.Draw(t, "lit")
